@@ -297,7 +297,8 @@ def handle (toks : List String) : String :=
           | none => "err"
       s!"{m}\t{s}"
     | _, _, _ => "bad-op\t-"
-  | "k" :: rest =>
+  | op :: rest =>
+    if op != "k" && op != "kc" then "bad-op\t-" else
     match parseT rest with
     | some (defs, r1) =>
       match parseT r1 with
@@ -314,22 +315,26 @@ def handle (toks : List String) : String :=
             | some code => some (showKI code)
             | none => none
           let show? := fun (o : Option String) => match o with | some l => l | none => "err"
+          let lm := listing call
+          if op == "kc" then
+            -- the model generator's context listing of the program with the macro call
+            s!"kc ctx= {show? lm}\t-"
+          else
           -- spec: substitution of the argument forms for the parameters, written into the program by hand
           let tmpl := (match defs with
             | .list (.list [_, _, body] none :: _) none => body.toTmpl?
             | _ => none)
           let paramTab : Table := args.map (fun a => (true, some a))
           let byHand := if args.length ≠ mac.params.length then none else tmpl.bind (subst (bindingOf paramTab))
-          let lm := listing call
           match byHand with
           | none => s!"k noexp {if lm.isSome then "ok" else "err"}\tk noexp err"
           | some x =>
-            let lh := listing x
-            let same := if lm == lh then "k eq code=eq" else "k ne:model code=ne"
-            s!"{same} dep=ok ctx= {show? lm}\tk eq code=eq dep=ok ctx= {show? lh}"
+            -- model: the two programs compile to the same context listing (`macro_call_in_context`)
+            let same := if lm == listing x then "k eq code=eq ctx=eq dep=ok" else "k ne:model code=ne ctx=ne dep=ok"
+            s!"{same}\tk eq code=eq ctx=eq dep=ok"
         | _, _ => "bad-op\t-"
       | _ => "bad-op\t-"
     | none => "bad-op\t-"
-  | _ => "bad-op\t-"
+  | [] => "bad-op\t-"
 
 end ZygoVerif.Driver.Sq
